@@ -254,7 +254,9 @@ func (r *replayer) child(c *node, self common.Address, static bool) string {
 	if ok && c.kind.creates() {
 		a := r.m.acct(cself)
 		a.created = true
-		a.codeNode = c
+		if c.out == oReturn {
+			a.codeNode = c
+		}
 	}
 	if known { // st == 1
 		if !ok {
